@@ -117,9 +117,14 @@ NOT_APPLICABLE = [
     {"property_id": "C19", "reason": "finite table of flag combinations; enumeration of configurations, nothing to schedule or fail"},
 ]
 
-NOTES = ("All claimed checks are exploration-level deterministic simulations (see DESIGN.md). One entry script: "
-         "/verif/check <ID> --tier quick|thorough; VERIF_SEED selects the seed batch; VERIF_REPO points the checks at a "
-         "scratch copy (sensitivity self-test only). Exit 2 = harness error, never reported as success.")
+NOTES = ("All claimed checks are exploration-level deterministic simulations (see DESIGN.md; §10 is the build report). One "
+         "entry script: /verif/check <ID> --tier quick|thorough; VERIF_SEED selects the seed batch; VERIF_REPO points the checks "
+         "at a scratch copy (self-tests only). Exit 2 = harness error, never reported as success. Five genuine defects were "
+         "repaired in /repo (fix: commits 40a7ea6, 5bbf938, ab3e6dd, f3aaac2, 08553b7; recorded as `fixed` in "
+         "known_findings.json, witnesses pinned under corpus/); one is recorded as a finding (D6, property C07: the check prints "
+         "KNOWN-FINDING for its pinned witness and exits 0). Self-tests: check selftest-determinism | selftest-simfs | "
+         "selftest-grammar | selftest-sensitivity (mutants/catalogue.json) | selftest-seeded (84 independent seeded changes "
+         "under seeded/).")
 
 
 CLAIMED = ["C02", "C03", "C07", "C08", "C10", "C12", "C13", "C16", "C17"]
